@@ -14,8 +14,8 @@ C['C14'] = dict(
  note="-inf mask value modelled as outside the score type (integer matrices containing iinfo.min and overflowing float sums are excluded points, DESIGN.md 5).",
  tech="Lean 4 proof (induction, loop invariants) + exact differential correspondence + oracle search on the implementation")
 C['C15'] = dict(
- text="Lean theorems: the 'optimal' assignment attains the maximum total score over all permutations (Finset.sum form, hence >= greedy); row dominance forces greedy = optimal = sigma; euclidean and cosine similarities are strictly self-dominant for distinct (normalised) rows, multiply has the identity as strict unique maximiser of the total; hence the oracle aligner undoes EVERY per-frequency permutation field (all K, F, T; F=1 is the flattened global case) for euclidean/cos with both algorithms and multiply with 'optimal'. Correspondence exact; search exhaustive for K<=3, F<=3, vs scipy linear_sum_assignment.",
- note="multiply+greedy inversion is search-only (multiply is not row dominant); real-number statements, float near-ties excluded by a 1e-6 separation margin in the generators.",
+ text="Lean theorems: the 'optimal' assignment attains the maximum total score over all permutations (Finset.sum form, hence >= greedy); row dominance forces greedy = optimal = sigma; euclidean and cosine similarities are strictly self-dominant for distinct (normalised) rows, multiply has the identity as strict unique maximiser of the total; hence the oracle aligner undoes EVERY per-frequency permutation field (all K, F, T; F=1 is the flattened global case) for all three metrics (euclidean, cos, multiply) with both algorithms (multiply+greedy via stepwise dominance). Correspondence exact; search exhaustive for K<=3, F<=3, vs scipy linear_sum_assignment.",
+ note="real-number statements, float near-ties excluded by a 1e-6 separation margin in the generators.",
  tech="Lean 4 proof over ordered monoids / reals + exact correspondence + exhaustive small-space search")
 C['C16'] = dict(
  text="Lean theorems: alignment_plan model (bit-identical to the code on every configuration with STFT size <= 24/64 and the 512/1024 defaults) covers every bin whenever shift <= width; DHTV and adjacent-bin mappings are exactly the accumulated net reordering (loop invariant, all masks/plans/metrics); identity on consistent masks; the greedy aligner restores ONE class order for every permutation field under adjacent-bin row dominance, which the stated analytic domain (cosine <= 0.1, jitter <= 10 %) implies for the cos metric (jitter lemma). PARTIAL: DHTV convergence from a 70 % first-segment majority through the interleaved plan is not a theorem; it is decided by search on the real code (permutation fields in the stated domain, shipped defaults and custom plans).",
